@@ -45,6 +45,8 @@ def run(ctx):
     ctx.do(rule_positional_index, rule_id="C03.selector-acceptance")
     ctx.do(rule_syntax_agreement, rule_id="C03.selector-acceptance", language_only=True)
     ctx.do(rule_descends, rule_id="C03.selector-acceptance")
+    from .hidden_state import rule_no_hidden_state
+    ctx.do(rule_no_hidden_state, "C03.history-independence")
 
 
 def rule_table(ctx):
